@@ -2,7 +2,7 @@
    Proofs/FastVerilogProofs.v.  Models: Model/FastVerilog.v (fast_sem, full_sem, untie, in_subset). *)
 From Coq Require Import Ascii.
 From stdpp Require Import strings gmap sets.
-From CG Require Import Model.FastVerilog Model.FastVerilogText Proofs.FastVerilogTextProofs Proofs.FastVerilogProofs Proofs.FvA6 Proofs.FvA10 Proofs.FvD6 Base.Sem Gen.Gen_fastv.
+From CG Require Import Model.FastVerilog Model.FastVerilogText Proofs.FastVerilogTextProofs Proofs.FastVerilogProofs Proofs.FvA6 Proofs.FvA10 Proofs.FvD6 Proofs.FvD7 Base.Sem Gen.Gen_fastv.
 Open Scope string_scope.
 
 (* obligation on the regenerated tables: patterns of the fast reader as captured from a live call (keywords anchored with \b,
@@ -53,6 +53,17 @@ Proof.
   intros it Hit. specialize (H2 it Hit). by destruct it.
 Qed.
 Print Assumptions C14_fast_full_agree_prims.
+
+(* THE PROPERTY as stated (structure AND function) for every AST of the subset without blackbox instances: both succeed; same name,
+   registry, inputs; graphs identical apart from the constant nodes' names; and every consistent valuation of the fast reader's
+   circuit is matched by a consistent valuation of the full reader's circuit that agrees on every net of the netlist (so the
+   function at every output is the same -- for circuits of any size, cyclic ones included) *)
+Theorem C14_property_prims_assigns : ∀ a bbs, in_subset a bbs = true → no_inst a = true →
+  ∃ Cf Cl, fast_sem a bbs = Ok Cf ∧ full_sem a bbs = Ok Cl ∧ untie Cf = untie Cl ∧
+    c_name Cf = c_name Cl ∧ c_bbs Cf = c_bbs Cl ∧ inputs (c_g Cf) = inputs (c_g Cl) ∧
+    ∀ vf, consistent (c_g Cf) vf → ∃ vl, consistent (c_g Cl) vl ∧ ∀ n, n ∈ idents a → vl n = vf n.
+Proof. exact property_gates. Qed.
+Print Assumptions C14_property_prims_assigns.
 
 (* second half of "both succeed" for every AST of the subset WITHOUT blackbox instances (primitive instances and assigns, any
    statement order, use before definition): the full reader raises nothing.  Proof: invariant of its fold over add_g
